@@ -46,7 +46,7 @@ def instances(tier):
         for k in ks:
             bb = dict(b, wall_s=35) if quick and fam == "dopri45" else b
             out.append(dict(id="rhs-fault-%s-k%02d" % (fam, k), family=fam, N=N if fam not in ("dopri45", "backward_euler") else 2, where="rhs", k=k, exc="RuntimeError", budget=bb))
-        for exc in ("KeyboardInterrupt", "Custom", "ValueError"):
+        for exc in ("KeyboardInterrupt", "Custom", "ValueError", "ZeroDivisionError") + (() if quick else ("FloatingPointError", "OverflowError", "KeyError")):
             for k in ((2,) if quick and fam != "euler" else (2, 4)):
                 bb = dict(b, wall_s=35) if quick and fam == "dopri45" else b
                 out.append(dict(id="rhs-fault-%s-k%02d-%s" % (fam, k, exc), family=fam, N=2, where="rhs", k=k, exc=exc, budget=bb))
@@ -92,6 +92,8 @@ def _mkexc(kind):
         return ValueError("injected")
     if kind == "KeyboardInterrupt":
         return KeyboardInterrupt("injected")
+    if kind in ("ZeroDivisionError", "FloatingPointError", "OverflowError", "KeyError"):
+        return {"ZeroDivisionError": ZeroDivisionError, "FloatingPointError": FloatingPointError, "OverflowError": OverflowError, "KeyError": KeyError}[kind]("injected")
     return Custom("injected")
 
 
